@@ -3,6 +3,7 @@ the alias analysis over the package call graph (memoised fixed point, recursion 
 import ast
 
 from .alias import Alias, FRESH, strip, roots, dotted
+from .model import norm_stmt
 
 
 class Effects:
@@ -152,3 +153,55 @@ def check_no_shared_module_state(ctx, rule="R-instance-state-not-shared", files=
                     ctx.holds(rule, c, "bound to a module-level object but never modified through the attribute", where)
     if n == 0:
         ctx.holds(rule, "+".join(files), "no instance attribute is bound to a module-level mutable object", "")
+
+
+# ---------------------------------------------------------------------------- a scratch buffer is not refilled while an earlier result in it is live
+class _FillTrace(Alias):
+    def __init__(s, *a, **k):
+        Alias.__init__(s, *a, **k); s.alloc_labels = True; s.assigns = {}
+
+    def stmt(s, st, env):
+        n0 = len(s.sinks)
+        Alias.stmt(s, st, env)
+        if isinstance(st, ast.Assign) and len(st.targets) == 1 and isinstance(st.targets[0], ast.Name):
+            s.assigns[id(st)] = (st, st.targets[0].id, set(env.get(st.targets[0].id, ())), list(s.sinks[n0:]))
+
+
+def check_scratch_reuse(ctx, rule="R-scratch-buffer-not-clobbered", files=("speckit/core.py",)):
+    """v1 = fill(..., out=B) ... v2 = fill(..., out=B) ... use(v1): the second fill overwrites what v1 still refers to (both are views of B).
+    Decided per function on may-alias sets with allocation-site identities; callee effects (writes/returns its out parameter) come from the summaries."""
+    E = Effects(ctx.repo)
+    nfun = 0; nfill = 0
+    for rel in files:
+        if rel not in ctx.repo.mods: continue
+        for key, fn in ctx.repo.functions_in(rel):
+            nfun += 1
+            A = _FillTrace(fn, resolve=E.resolver(key)); A.run()
+            fills = []       # (stmt, var, root) : var = call(...) whose callee fills a buffer `root` that var then aliases
+            for st, var, al, sinks in A.assigns.values():
+                for sk in sinks:
+                    if sk.kind not in ("out=", "callee-write"): continue
+                    for l in strip(sk.sources)[0]:
+                        r = roots(l)[0]
+                        if (r.startswith("local:") or r.startswith("param:")) and any(roots(x)[0] == r for x in strip(al)[0]):
+                            fills.append((st, var, r))
+            nfill += len(fills)
+            fills.sort(key=lambda t: t[0].lineno)
+            uniq = {}
+            for t_ in fills: uniq.setdefault((id(t_[0]), t_[1], t_[2]), t_)
+            fills = list(uniq.values())
+            for i, (s1, v1, r1) in enumerate(fills):
+                for s2, v2, r2 in fills[i + 1:]:
+                    if r2 != r1 or v2 == v1 or s2 is s1: continue
+                    end2 = getattr(s2, "end_lineno", s2.lineno)
+                    # is v1 read after the second fill, before v1 is bound again?
+                    rebinds = sorted(n.lineno for n in ast.walk(fn) if isinstance(n, ast.Name) and n.id == v1 and isinstance(n.ctx, ast.Store) and n.lineno > end2)
+                    horizon = rebinds[0] if rebinds else 10 ** 9
+                    reads = [n for n in ast.walk(fn) if isinstance(n, ast.Name) and n.id == v1 and isinstance(n.ctx, ast.Load) and end2 < n.lineno <= horizon]
+                    if reads:
+                        ctx.violated(rule, f"{key}[{norm_stmt(s2)[:70]}]", f"'{v1}' (line {s1.lineno}) and '{v2}' (line {s2.lineno}) are both views of the same buffer ({r1}): the second fill overwrites "
+                                     f"the samples '{v1}' refers to, and '{v1}' is still used at line {reads[0].lineno} - it now holds the other channel's / chunk's data", f"{rel}:{s2.lineno}")
+                    else:
+                        ctx.holds(rule, f"{key}[{norm_stmt(s2)[:70]}]", f"buffer {r1} is refilled after the last use of '{v1}'", f"{rel}:{s2.lineno}")
+    ctx.need("functions scanned for scratch-buffer reuse", nfun, 20)
+    ctx.holds(rule, ",".join(files), f"{nfun} functions, {nfill} buffer fills through out= / writing callees: no buffer is refilled while an earlier result in it is still used", files[0])
